@@ -39,6 +39,14 @@ CHECKS = {
                 technique="fault injection at the type-resolver seam: stale size / alignment / may-be-uninit information for each datum, decided by compiling the generated module (rustc type check + const evaluation) against the unperturbed control",
                 text="For every datum of every drawn definition (directed corpus + seeded swarm), introduced in the first or a later variant, the recorded type information is made stale in every listed way (size-1, size+1, size*2, align/2, align*2, may-be-uninit on a non-Copy type) through both entry points (explicit override, edited JSON type table read back by a StaticTypeResolver): the generated module must be rejected by rustc while the unperturbed control compiles. Complete over data x perturbations x entry points of each definition; definitions are sampled. There is no schedule or clock in this property: the simulated fault is the stale table.",
                 note="Trusts rustc; probes are type-checked on this host only (a foreign target cannot be executed here)."),
+    "C14": dict(engine="SIM-T", category="exploration", design_ref="DESIGN.md 2.3, 3",
+                technique="deterministic schedule search (shuttle, seeded random + PCT schedulers, persisted replayable schedules) gated by compile probes of Send / Sync on generated record types",
+                text="For 6 definitions (13 variant types) holding fields that lack Send and/or Sync (reference-counted stub, cell stub, raw pointer, guard-like type) and all-Send+Sync controls, a compile probe per (variant, trait) must give the conjunction over the variant's field types (rejected with E0277 where a field lacks the trait, accepted where all have it). Every record type accepted although a field lacks the trait is then driven by a 3-thread scenario (clone on other threads / increment through a shared reference) under shuttle's seeded schedulers; a lost update is recorded with its replayable schedule. On a tree where the gate gives the expected verdicts no schedule is run.",
+                note="The deciding observation for the 'only if' direction is the compiler's verdict; the schedule search demonstrates the consequence. The definition set is fixed, not seeded."),
+    "C19": dict(engine="SIM-D", category="exploration", design_ref="DESIGN.md 2.5, 3",
+                technique="replay determinism across perturbed processes: the same seeded builder histories generated twice per process in processes with different ASLR, environment, cwd, locale, thread count, heap history and hasher keys; byte identity of offsets, Display text and generated code",
+                text="Seeded builder histories (swarm incl. gap-reuse and per-variant strategy mixtures, all fragment selections) are generated twice inside each of several processes whose ambient state is perturbed on purpose; offsets, Display text and generated code must be byte-identical in all copies. Sound (a deterministic generator can never be flagged); detection of hash-ordered or address-ordered iteration is probabilistic with the stated bound.",
+                note="Which hasher keys or addresses a process gets cannot be chosen, only made different."),
     "C15": dict(engine="SIM-R", category="fault_enumeration", design_ref="DESIGN.md 2.2, 3",
                 technique="deterministic simulation with fault injection: refinement of serde's tuple implementation under faulty readers/writers, stream mutations and failing element codecs",
                 text="For every variant of serde-enabled definitions, JSON and bincode: encode(record) must equal encode(tuple of its fields) byte for byte, and decode::<Record>(s) must agree with decode::<(T0,..)>(s) (both error, or both ok with equal fields; never a panic) for well-formed streams and for streams truncated at any byte, with a flipped bit, with an extra, missing or wrongly typed element, delivered through readers with short reads, EINTR, an error or early EOF at byte k, and with the n-th element codec failing; after every rejected decode nothing decoded so far survives (ledger). Fault positions are drawn by seed (not exhaustively enumerated per stream).",
@@ -61,8 +69,6 @@ NOT_APPLICABLE = {
 }
 
 PENDING = {
-    "C14": "check under construction (SIM-T, DESIGN.md 2.3): not claimed until the simulator is committed",
-    "C19": "check under construction (SIM-D, DESIGN.md 2.5): not claimed until the simulator is committed",
 }
 
 HOOKS = dict(
@@ -74,6 +80,8 @@ HOOKS = dict(
 )
 
 ENGINES = [
+    dict(name="SIM-T", path="sim/thrsim, sim/thrtypes + lib/simt.py", serves_properties=["C14"], kind_free_text="compile gate on Send/Sync of generated record types + shuttle schedule search with persisted schedules"),
+    dict(name="SIM-D", path="sim/simgen (bin simd) + lib/simd.py", serves_properties=["C19"], kind_free_text="replay-determinism checker: same seeded histories generated in perturbed processes, outputs diffed"),
     dict(name="SIM-F", path="sim/simgen (bin simf) + lib/simf.py", serves_properties=["C11"], kind_free_text="stale type table fault enumerator: rebuilds definitions with perturbed type information through the real builder entry points, generates with the real generator, compiles each probe with rustc"),
     dict(name="SIM-R", path="sim/recsim (+ sim/simgen, sim/simrt)", serves_properties=["C04", "C05", "C06", "C07", "C15", "C16"], kind_free_text="record life-cycle simulator: definitions generated by the real truc builder/generator in the simulator's build script, seeded operation histories with fault plans, offset-free reference model, value ledger, allocator seam, faulty Read/Write; native dev/release and Miri arms"),
     dict(name="SIM-V", path="sim/vecsim", serves_properties=["C08", "C09", "C10"], kind_free_text="seeded deterministic simulator of truc_runtime::convert with scripted faulty converter, value ledger and allocator seam; native dev/release and Miri arms"),
